@@ -1,5 +1,6 @@
 #!/usr/bin/env python3
-"""usage: seed_run.py <seeded-dir-name> [check ids...]
+"""usage: seed_run.py <seeded-dir-name> [check ids...]      (SEED_RUN_SKIP_FINAL_REBUILD=1: the caller
+rebuilds afterwards - used by batch runs, where the next patch triggers a rebuild anyway)
 Stage 2 of seeded-change handling: apply /verif/seeded/<name>/patch.diff to /repo's working tree,
 rebuild the simulator, run the given checks (default: all claimed) at quick tier without touching
 the evidence files, record the verdicts in /verif/seeded/<name>/caught.json, move the replay files
@@ -27,7 +28,8 @@ try:
         print(name, c, 'exit', r.returncode, (oracle[0][:200] if oracle else ''), flush=True)
 finally:
     subprocess.run(['git','-C','/repo','checkout','--','.'])
-    subprocess.run('cd /verif/sim && CARGO_NET_OFFLINE=true cargo build --release --offline', shell=True, capture_output=True)
+    if not os.environ.get('SEED_RUN_SKIP_FINAL_REBUILD'):
+        subprocess.run('cd /verif/sim && CARGO_NET_OFFLINE=true cargo build --release --offline', shell=True, capture_output=True)
 new = sorted(set(glob.glob('/verif/replays/*.json')) - before)
 os.makedirs(f'{d}/replays', exist_ok=True)
 for p in new:
